@@ -258,6 +258,44 @@ def gen_sasl(rng, n):
     return out
 
 
+def gen_conc(rng, quick):
+    """concurrent logins on different connections against a backend that is a function of
+    the body: per round one session with VALID credentials and one (or two) with a wrong
+    password whose request body has the SAME length; started one after the other, each held
+    in the handshake to the backend, then released together (driver op c04_conc, GOMAXPROCS=1)"""
+    mixes = [("direct", "direct"), ("login", "login"), ("authplain", "login"), ("login", "sasl"), ("direct", "authplain", "login")]
+    if not quick:
+        mixes = mixes * 4 + [("sasl", "sasl"), ("authplain", "authplain"), ("login", "direct", "sasl"), ("sasl", "login")] * 2
+    rounds = []
+    dom = rng.choice(DOMAINS)
+    alnum = list("abcdefghkmnpqrstuvwxyz23456789")
+    for n, kinds in enumerate(mixes):
+        L = rng.randint(5, 9)
+        P = rng.randint(6, 11)
+        good_u = "m%d%s" % (n, word(rng, alnum, L, L))
+        good_p = word(rng, alnum, P, P)
+        sessions = []
+        for k, kind in enumerate(kinds):
+            if k == len(kinds) - 1:
+                u, p = good_u, good_p          # the valid account logs in last
+            else:
+                u = "v%d%s" % (n, word(rng, alnum, L, L))
+                u = u[:len(good_u)].ljust(len(good_u), "x")
+                p = word(rng, alnum, P, P)     # wrong password, same length
+            full = rng.random() < 0.5
+            uu = u + "@" + dom if full else u
+            se = {"kind": kind, "u": uu, "p": p, "tag": "c%d" % k}
+            if kind == "login":
+                se["line"] = "%s LOGIN %s %s\r\n" % (se["tag"], uu, p)
+            elif kind == "authplain":
+                se["blob"] = b64("\x00" + uu + "\x00" + p) + "\r\n"
+            elif kind == "sasl":
+                se["line"] = "AUTH\t%d\tPLAIN\tservice=smtp\tresp=%s" % (k + 1, b64("\x00" + uu + "\x00" + p))
+            sessions.append(se)
+        rounds.append({"accept": [[good_u + "@" + dom, good_p]], "sessions": sessions})
+    return [{"suite": "conc", "domain": dom, "procs": 1, "rounds": rounds, "beh": "200"}]
+
+
 # ---------------------------------------------------------------------------
 # running cases on the implementation
 
@@ -297,6 +335,9 @@ def scenario_ops(cases):
     for i, c in enumerate(cases):
         if c["suite"] == "ident":
             ops.append({"op": "c04_ident", "domain": c["domain"], "users": c["users"]})
+            owners.append([i])
+        if c["suite"] == "conc":
+            ops.append({"op": "c04_conc", "domain": c["domain"], "procs": c["procs"], "hold_ms": 1500, "rounds": c["rounds"]})
             owners.append([i])
         if c["suite"] == "race":
             ops.append({"op": "c04_race", "domain": c["domain"], "k": c["k"], "rounds": c["rounds"], "lmtp": c["lmtp"],
@@ -354,6 +395,9 @@ def run_impl(cases, workers=8, chunk=60):
             if op["op"] == "c04_race":
                 ch[idx[0]]["obs"] = {"cfg_domain": ob["cfg_domain"], "rounds": ob["rounds"]}
                 continue
+            if op["op"] == "c04_conc":
+                ch[idx[0]]["obs"] = {"rounds": ob["rounds"]}
+                continue
             if ob.get("setup_errors"):
                 crashes.append("world setup failed: %s" % ob["setup_errors"][:3])
                 continue
@@ -407,7 +451,7 @@ def observed(c):
 def emit(cases):
     """Coq sources evaluating all cases: list of (suite, keys, file body)"""
     src = C.COQ_CASE_HEADER + "From Raven Require Import Base.GoStrB64 Spec.Json Model.Auth Spec.AuthSpec Spec.AuthObs.\n"
-    groups = {"direct": [], "ident": [], "login": [], "plain": [], "sasl": [], "race": []}
+    groups = {"direct": [], "ident": [], "login": [], "plain": [], "sasl": [], "race": [], "conc": []}
     skipped = SKIPPED
     for i, c in enumerate(cases):
         if "obs" not in c:
@@ -416,6 +460,29 @@ def emit(cases):
         if s == "ident":
             for j, (u, row) in enumerate(zip(c["users"], c["obs"]["rows"])):
                 groups[s].append(((i, j), "(mk_icase %s %s (%s, %s))" % (cs(c["domain"]), cs(u), cs(row[0]), cs(row[1]))))
+            continue
+        if s == "conc":
+            for r, (plan, rd) in enumerate(zip(c["rounds"], c["obs"]["rounds"])):
+                xs = []
+                for se, ob in zip(plan["sessions"], rd["sessions"]):
+                    imap = se["kind"] != "sasl"
+                    bound = None
+                    if se["kind"] == "direct":
+                        reply = reply_class(ob.get("wrote", ""), "T")
+                        if ob.get("authed"):
+                            bound = ob.get("row") or ["\x00missing-row", ""]
+                    elif imap:
+                        reply = reply_class(ob.get("recv", ""), se["tag"])
+                        st = ob.get("stores")
+                        if st is not None:
+                            st = [x for x in st if x]
+                            bound = st[0] if len(st) == 1 else ["\x00stores:%d" % len(st), ""]
+                    else:
+                        reply = "R_OK" if ob.get("wrote", "").startswith("OK\t") else "R_NO"
+                    b = "None" if bound is None else "(Some (%s, %s))" % (cs(bound[0]), cs(bound[1]))
+                    xs.append("(mk_csess %s %s %s %s %s %s)" % (C.coq_bool(imap), cs(c["domain"]), cs(se["u"]), cs(se["p"]), reply, b))
+                bodies = ["(%s, %s)" % (cs(x["body"]), C.coq_bool(x["accepted"])) for x in rd["backend"]]
+                groups[s].append(((i, (r, 0)), "(mk_ccase %s %s)" % (C.coq_list(xs), C.coq_list(bodies))))
             continue
         if s == "race":
             for r, rd in enumerate(c["obs"]["rounds"]):
@@ -452,7 +519,7 @@ def emit(cases):
             it = "None" if c["intended"] is None else "(Some (%s, %s))" % (cs(c["intended"][0]), cs(c["intended"][1]))
             groups[s].append((i, "(mk_pcase %s %s %s %s %s %s %s)" % (C.coq_bool(c["tls"]), cs(c["domain"]), cs(c["authzid"]), cs(c["blob"]), oc, it, obs)))
     ev = {"direct": ("dcase", "dcase_eval"), "ident": ("icase", "icase_eval"), "login": ("wcase", "wcase_eval"),
-          "plain": ("pcase", "pcase_eval"), "sasl": ("scase", "scase_eval"), "race": ("rcase", "rcase_eval")}
+          "plain": ("pcase", "pcase_eval"), "sasl": ("scase", "scase_eval"), "race": ("rcase", "rcase_eval"), "conc": ("ccase", "ccase_eval")}
     files = []
     for s, items in groups.items():
         ty, f = ev[s]
@@ -507,7 +574,11 @@ def evaluate(chk, cases, tagname):
 
 def payload_of(c, sub=None):
     p = {k: v for k, v in c.items() if k not in ("obs",)}
-    if sub is not None and c["suite"] == "race":
+    if sub is not None and c["suite"] == "conc":
+        # the replayable scenario: this round alone
+        p["rounds"] = [c["rounds"][sub[0]]]
+        p["observed"] = c["obs"]["rounds"][sub[0]]
+    elif sub is not None and c["suite"] == "race":
         p["observed"] = c["obs"]["rounds"][sub[0]]
     elif sub is not None:
         p = {"suite": "ident", "domain": c["domain"], "users": [c["users"][sub]]}
@@ -525,6 +596,14 @@ def describe(c, sub=None):
             c["u"], c["p"], c["domain"], c["beh"], c["prov"], (c.get("obs") or {}).get("wrote", "")[:12], (c.get("obs") or {}).get("row"))
     if s == "direct":
         return "authenticateUser(%r, %r) domain=%r backend=%s" % (c["u"], c["p"], c["domain"], c["beh"])
+    if s == "conc":
+        plan, rd = c["rounds"][sub[0]], c["obs"]["rounds"][sub[0]]
+        ses = []
+        for se, ob in zip(plan["sessions"], rd["sessions"]):
+            ans = (ob.get("wrote") or ob.get("recv") or "")[:8]
+            ses.append("%s %r/%r -> %r" % (se["kind"], se["u"], se["p"], ans))
+        return ("concurrent logins (GOMAXPROCS=%d, held in the backend handshake, released together) domain=%r, backend accepts only %r: sessions [%s]; "
+                "bodies received by the backend: %r" % (c["procs"], c["domain"], plan["accept"], "; ".join(ses), [(x["body"], x["accepted"]) for x in rd["backend"]]))
     if s == "race":
         rd = c["obs"]["rounds"][sub[0]]
         se = rd["sessions"][sub[1]]
@@ -567,7 +646,7 @@ def neighbours(c):
     out = []
     for beh in ("200", "401", "close"):
         n = {k: v for k, v in c.items() if k not in ("obs", "corpus", "expect_class")}
-        if n["suite"] in ("ident", "race") or n.get("prov", "none") != "none":
+        if n["suite"] in ("ident", "race", "conc") or n.get("prov", "none") != "none":
             continue
         n["beh"] = beh
         if "tag" in n:
@@ -583,7 +662,7 @@ def run(chk):
     n_direct, n_ident, n_login, n_plain, n_sasl = (420, 600, 110, 90, 330) if quick else (4000, 6000, 900, 700, 3000)
     cases = list(corpus)
     cases += gen_direct(rng, n_direct) + gen_ident(rng, n_ident) + gen_login(rng, n_login) + gen_plain(rng, n_plain) + gen_sasl(rng, n_sasl)
-    cases += gen_race(rng, quick)
+    cases += gen_race(rng, quick) + gen_conc(rng, quick)
     if not quick:
         # the SASL client's own patience (10 s): a backend that answers 200 too late must not yield OK
         cases.append({"suite": "sasl", "domain": "d.test", "line": "AUTH\t5\tPLAIN\tresp=" + b64("\x00late\x00pw"), "beh": "slowfail:11500", "intended": ["5", "late", "pw"]})
@@ -594,7 +673,7 @@ def run(chk):
         if c["suite"] in ("login", "plain") and "corpus" not in c:
             pass
 
-    flat_sizes = [len(c["users"]) if c["suite"] == "ident" else (c["rounds"] * c["k"] if c["suite"] == "race" else 1) for c in cases]
+    flat_sizes = [len(c["users"]) if c["suite"] == "ident" else (c["rounds"] * c["k"] if c["suite"] == "race" else (len(c["rounds"]) if c["suite"] == "conc" else 1)) for c in cases]
     bad = evaluate(chk, cases, "")
     if bad is None:
         return
@@ -602,11 +681,13 @@ def run(chk):
     # ---- coverage
     n_eval = sum(flat_sizes)
     chk.cov["evaluations"] = n_eval
-    chk.cov["by_suite"] = {s: sum(sz for c, sz in zip(cases, flat_sizes) if c["suite"] == s) for s in ("direct", "ident", "login", "plain", "sasl", "race")}
+    chk.cov["by_suite"] = {s: sum(sz for c, sz in zip(cases, flat_sizes) if c["suite"] == s) for s in ("direct", "ident", "login", "plain", "sasl", "race", "conc")}
     chk.cov["backend_behaviours"] = sorted(set(c.get("beh", "") for c in cases if c["suite"] != "ident"))
     accepted = [c for c in cases if c["suite"] in ("direct", "login", "plain") and observed(c)[1] == "R_OK"]
     chk.cov["imap_sessions_authenticated"] = len(accepted)
     chk.cov["account_states"] = {m: sum(1 for c in cases if c["suite"] == "direct" and c.get("prov") == m) for m in WORLD}
+    chk.cov["conc_rounds"] = sum(len(c["rounds"]) for c in cases if c["suite"] == "conc")
+    chk.cov["conc_sessions_held_in_handshake"] = sum(1 for c in cases if c["suite"] == "conc" for rd in c["obs"]["rounds"] for ob in rd["sessions"] if not ob.get("not_accepted"))
     chk.cov["race_rounds"] = sum(c["rounds"] for c in cases if c["suite"] == "race")
     chk.cov["race_sessions_ok"] = sum(1 for c in cases if c["suite"] == "race" for rd in c["obs"]["rounds"] for se in rd["sessions"] if se.get("authed"))
     chk.cov["sasl_ok_answers"] = sum(1 for c in cases if c["suite"] == "sasl" and c["obs"].get("wrote", "").startswith("OK\t"))
@@ -623,6 +704,10 @@ def run(chk):
         elif c["suite"] == "race":
             for rd in c["obs"]["rounds"]:
                 seen.add(("r", c["prefix"], rd["u"]))
+            continue
+        elif c["suite"] == "conc":
+            for n, rd in enumerate(c["rounds"]):
+                seen.add(("c", n, tuple((se["kind"], se["u"], se["p"]) for se in rd["sessions"])))
             continue
         elif c["suite"] == "sasl":
             key = ("s", c["domain"], c["line"], c["beh"])
